@@ -398,9 +398,10 @@ func (x Bin) Eval(e *Env) Value {
 	case ">=":
 		return b2v(l.signed().Cmp(r.signed()) >= 0)
 	case "==":
-		return b2v(l.P.Cmp(r.P) == 0)
+		// by value (operands of one signedness and possibly different widths)
+		return b2v(l.signed().Cmp(r.signed()) == 0)
 	case "!=":
-		return b2v(l.P.Cmp(r.P) != 0)
+		return b2v(l.signed().Cmp(r.signed()) != 0)
 	}
 	panic("refsem: op " + x.Op)
 }
